@@ -32,7 +32,7 @@ func init() {
 	Register(&Rule{
 		ID:    "R-POOL",
 		Doc:   "typestate per sync.Pool object x := P.Get(): after P.Put(x) no use of x or of memory loaded from it; nothing derived from x's memory flows to a return (copy-out); a released tokenizer stack is dropped from its owner",
-		Props: []string{"C09", "C10", "C17", "C03", "C06", "C01", "C14", "C12"},
+		Props: []string{"C09", "C10", "C17", "C03", "C06", "C01", "C14", "C12", "C05"},
 		Min:   map[string]int{"C09": 7, "C10": 2, "C17": 1, "C03": 1, "C06": 5, "C01": 5, "C14": 5, "C12": 1},
 		Run:   runPool,
 	})
@@ -1054,6 +1054,10 @@ func runPool(c *core.Ctx) []core.Obligation {
 				if strings.HasPrefix(shortName(fn), "json.(encoder)") {
 					// a dirty scratch slice makes the sibling encoders panic on a stale element or emit extra members
 					props = append(append([]string{}, props...), "C06", "C01", "C14")
+				}
+				if strings.Contains(shortName(fn), "RawMessage") {
+					// … or refuse the next, valid, map of raw messages with the previous one's error
+					props = append(append([]string{}, props...), "C05")
 				}
 				for _, site := range ps {
 					key := "pool:scrub-before-put@" + shortName(fn)
